@@ -27,7 +27,11 @@ MAX_RETRIES = 3
 class Pair:
     """two endpoints X and Y, each with a real Listener and a real ReliableSender towards the other"""
 
-    def __init__(self, nmsgs: int, faults: int, early_ticks: int = 1):
+    def __init__(self, nmsgs: int, faults: int, early_ticks: int = 1, topology: str = "pair"):
+        # pair: X and Y send to each other; fanin: X and Z both send to Y (two senders whose message numbers
+        # coincide meet in one listener)
+        self.sides = "XY" if topology == "pair" else "XYZ"
+        self.routes = {"X": "Y", "Y": "X"} if topology == "pair" else {"X": "Y", "Z": "Y"}
         for n in ("zmq", "get_context", "time", "max_retries_per_message"):
             common.seam(comms, n)
         self.net = Net(staged=True)
@@ -37,13 +41,13 @@ class Pair:
         comms.time = types.SimpleNamespace(time_ns=lambda: self.clock[0], time=lambda: self.clock[0] / 1e9)
         comms.max_retries_per_message = MAX_RETRIES
         self.nmsgs, self.faults_left, self.early_left = nmsgs, faults, early_ticks
-        self.L = {s: comms.Listener(f"inproc://{s}") for s in "XY"}
-        self.S = {s: comms.ReliableSender(f"inproc://{s}", GRACE_MS) for s in "XY"}
-        self.S["X"].add_host("Y", "inproc://Y")
-        self.S["Y"].add_host("X", "inproc://X")
-        self.sent = {"X": 0, "Y": 0}
-        self.handed: dict[str, list] = {"X": [], "Y": []}  # application messages handed up at each side
-        self.gave_up: dict[str, set] = {"X": set(), "Y": set()}
+        self.L = {s: comms.Listener(f"inproc://{s}") for s in self.sides}
+        self.S = {s: comms.ReliableSender(f"inproc://{s}", GRACE_MS) for s in self.sides}
+        for s_, peer in self.routes.items():
+            self.S[s_].add_host(peer, f"inproc://{peer}")
+        self.sent = {s: 0 for s in self.sides}
+        self.handed: dict[str, list] = {s: [] for s in self.sides}  # application messages handed up at each side
+        self.gave_up: dict[str, set] = {s: set() for s in self.sides}
         self.viol: list = []
         self.aged = False
         self.dup_used = False
@@ -57,7 +61,7 @@ class Pair:
     # ---- events
     def enabled(self) -> list:
         evs = []
-        for s in "XY":
+        for s in self.routes:
             if self.sent[s] < self.nmsgs and not self.gave_up[s]:
                 evs.append(("send", s))
         for k in range(len(self.net.deliverable())):
@@ -67,7 +71,7 @@ class Pair:
                 evs.append(("dup", k))
         if self.net.flight and self.dup_used and not self.aged:
             evs.append(("age",))  # a duplicated frame is delayed for an hour before it arrives (once per history)
-        for s in "XY":
+        for s in self.sides:
             # a retry timer firing while frames are still in flight is a deviation (budgeted); otherwise it is free
             if self.S[s].inflight and not self.gave_up[s] and (not self.net.flight or self.early_left > 0):
                 evs.append(("tick", s))
@@ -77,7 +81,7 @@ class Pair:
         kind = ev[0]
         if kind == "send":
             s = ev[1]
-            peer = "Y" if s == "X" else "X"
+            peer = self.routes[s]
             self.S[s].send(peer, self.message(s, self.sent[s]))
             self.sent[s] += 1
         elif kind in ("deliver", "drop", "dup"):
@@ -131,7 +135,7 @@ class Pair:
                 # by the time it raises, MAX_RETRIES transmissions have gone unanswered: legitimate only if each of them
                 # (or its Ack) was lost, or the timer fired before the answer could arrive
                 self.viol.append(("gave_up_on_reachable_peer", "sender raised 'retried too many times' although fewer frames were lost than transmissions went unanswered",
-                                  f"{s}: {e}; frames lost {self.lost}, early timers {self.early_used}, handed up at peer: {self.handed['Y' if s == 'X' else 'X']}"))
+                                  f"{s}: {e}; frames lost {self.lost}, early timers {self.early_used}, handed up at peer: {self.handed[self.routes.get(s, 'X')]}"))
             self.gave_up[s].add(str(e))
 
     def canon(self):
@@ -143,7 +147,7 @@ class Pair:
 
         return (
             tuple(self.sent.items()), self.faults_left, self.early_left, self.aged, self.dup_used,
-            tuple((s, sender(self.S[s]), tuple(sorted(map(repr, self.L[s].acked))), tuple(map(repr, self.handed[s])), bool(self.gave_up[s])) for s in "XY"),
+            tuple((s, sender(self.S[s]), tuple(sorted(map(repr, self.L[s].acked))), tuple(map(repr, self.handed[s])), bool(self.gave_up[s])) for s in self.sides),
             tuple((a, repr(frames(fr)), tag_rank) for (a, fr, _), tag_rank in zip(self.net.flight, self._tag_ranks())),
             tuple((a, tuple(repr(frames(fr)) for fr in q)) for a, q in sorted(self.net.queues.items()) if q),
         )
@@ -166,14 +170,14 @@ class Pair:
                 self.recv(addr[-1])
             if self.net.flight:
                 continue
-            if not any(self.S[s].inflight and not self.gave_up[s] for s in "XY"):
+            if not any(self.S[s].inflight and not self.gave_up[s] for s in self.sides):
                 break
-            for s in "XY":
+            for s in self.sides:
                 if self.S[s].inflight and not self.gave_up[s]:
                     self.tick(s)
         out = []
-        for s in "XY":
-            peer = "Y" if s == "X" else "X"
+        for s in self.routes:
+            peer = self.routes[s]
             for i in range(self.sent[s]):
                 m = self.message(s, i)
                 n = self.handed[peer].count(m)
@@ -189,7 +193,7 @@ def blackhole_closure(p: Pair) -> list:
     raise after a bounded number of retries"""
     out = []
     p.blackhole = True
-    for s in "XY":
+    for s in p.sides:
         if not p.S[s].inflight or p.gave_up[s]:
             continue
         for _ in range(MAX_RETRIES + 2):
@@ -203,16 +207,18 @@ def blackhole_closure(p: Pair) -> list:
 
 
 def build(cfg, hist) -> Pair:
-    p = Pair(cfg["nmsgs"], cfg["faults"], cfg.get("early_ticks", 1))
+    p = Pair(cfg["nmsgs"], cfg["faults"], cfg.get("early_ticks", 1), cfg.get("topology", "pair"))
     for ev in hist:
         p.apply(tuple(ev))
     return p
 
 
-def core(ctx, nmsgs: int, faults: int, early: int, max_depth: int, budget_s: float):
+def core(ctx, nmsgs: int, faults: int, early: int, max_depth: int, budget_s: float, topology: str = "pair"):
     import time
 
     cfg = {"nmsgs": nmsgs, "faults": faults, "early_ticks": early}
+    if topology != "pair":
+        cfg["topology"] = topology
 
     def expand(hist):
         p = build(cfg, hist)
@@ -299,11 +305,12 @@ def run(ctx):
     viols = []
     tot_states = tot_trans = 0
     bounds = []
-    for (nmsgs, faults, early, depth) in ctx.pick([(1, 2, 1, 40), (2, 1, 0, 40)], [(1, 3, 2, 60), (2, 2, 1, 60), (2, 3, 0, 60), (3, 1, 0, 60)]):
-        cfg, r = core(ctx, nmsgs, faults, early, depth, ctx.pick(900, 900))
+    for (nmsgs, faults, early, depth, *topo) in ctx.pick([(1, 2, 1, 40), (2, 1, 0, 40), (1, 1, 0, 40, "fanin")],
+                                                         [(1, 3, 2, 60), (2, 2, 1, 60), (2, 3, 0, 60), (3, 1, 0, 60), (2, 1, 0, 60, "fanin"), (1, 2, 1, 60, "fanin")]):
+        cfg, r = core(ctx, nmsgs, faults, early, depth, ctx.pick(900, 900), topo[0] if topo else "pair")
         tot_states += r["states"]
         tot_trans += r["transitions"]
-        bounds.append({"messages_per_direction": nmsgs, "fault_budget": faults, "early_timer_budget": early, "depth_completed": r["depth"], "closed": r["closed"], "states": r["states"], "capped": r["capped"]})
+        bounds.append({"topology": topo[0] if topo else "pair", "messages_per_direction": nmsgs, "fault_budget": faults, "early_timer_budget": early, "depth_completed": r["depth"], "closed": r["closed"], "states": r["states"], "capped": r["capped"]})
         for (mon, cause), (m, hist) in r["violations"].items():
             ctx.add_violation(common.Violation({"monitor": mon, "cause": cause}, f"[{cfg}] {m}; history={hist}", {"part": "core", "cfg": cfg, "history": hist}))
         for h in r["samples"][:1]:
